@@ -67,7 +67,12 @@ def build_tbl(
         )
         if utils.is_type([argv[0]], AS.Real):
             utils.check_arity(metadata, argv, 1)
-            return AS.Integer(int(argv[0].value))
+            try:
+                return AS.Integer(int(argv[0].value))
+            except (OverflowError, ValueError):
+                raise error.UnsuspectedHangeulValueError(
+                    metadata, f"{argv[0].value}은 정수로 바꿀 수 없습니다."
+                ) from None
 
         string, base = _parse_str_to_number(metadata, argv)
         try:
@@ -85,7 +90,12 @@ def build_tbl(
         )
         if utils.is_type([argv[0]], AS.Real):
             utils.check_arity(metadata, argv, 1)
-            return AS.Float(float(argv[0].value))
+            try:
+                return AS.Float(float(argv[0].value))
+            except OverflowError:
+                raise error.UnsuspectedHangeulArithmeticError(
+                    metadata, "정수가 실수로 나타내기에 너무 큽니다."
+                ) from None
 
         string, base = _parse_str_to_number(metadata, argv)
         if base == 10:
